@@ -21,7 +21,7 @@ pub fn prop() -> Prop {
 fn spec() -> Spec {
     Spec {
         kinds: vec![Kind { name: "five_dof", quick: 500_000, thorough: 12_000_000, serial: false }],
-        rule: "each case = non-degenerate robot with dof 5 or 6 (64 sign patterns, offsets) bare / behind an axial tool / on an arbitrary base / both; pose = reference FK of a generated q; J6 values 0, +-pi, 1e3, random; inverse_5dof and inverse_continuing_5dof on every robot, inverse and inverse_continuing additionally on dof-5 robots; every answer: tool point, tool axis, J6 bit-identical to the caller's value; generating J1..J5 present when non-singular; never empty on a pose produced by the robot's own FK; non-trivial = call returned >= 1 vector; distinct = hash(robot, stack, q, j6, entry)",
+        rule: "each case = non-degenerate robot with dof 5 or 6 (64 sign patterns, offsets) bare / behind an axial tool / on an arbitrary base / both; pose = reference FK of a generated q; J6 values 0, +-pi, 1e3, random; inverse_5dof and inverse_continuing_5dof on every robot, inverse and inverse_continuing additionally on dof-5 robots; every answer: tool point, tool axis, J6 bit-identical to the caller's value; generating J1..J5 present when non-singular; never empty on a pose produced by the robot's own FK; non-trivial = call returned >= 1 vector; distinct = hash(robot, stack, q, j6, entry) Workload additions: a quarter of the robots with limits on J6 only, asymmetric about zero; the sentinel's own J6 entry (0, up to whole turns); previous = an answer for the same tool point with the axis turned by 5..30 degrees; poses whose wrist centre lies exactly on the joint-2 axis of the other shoulder branch; dof-5 robots with an unblocked sixth sign.",
         assumptions: vec![
             "accuracy 1e-6 m / 1e-6 rad plus slack 1e-9 + 1e-12*reach",
             "generating J1..J5 expected only when |sin t5|, |sin(t3+psi3)| and wrist-centre/axis-1 distance >= 1e-3",
@@ -89,6 +89,13 @@ fn run_case(_kind: &str, idx: u64, rng: &mut Rng, mon: &mut Mon, _tier: Tier) {
             target = t;
             mon.count("wrist_centre_exactly_on_a_joint2_axis");
         }
+    }
+    // a twelfth of the poses has the model J5 inside the 0.01 degree wrist band without being zero: J4 still steers
+    // the tool axis there, whatever the previous J4 was
+    if rng.bool(0.08) && rp.signs[4] != 0 {
+        place_t5(&rp, &mut q, 0, rng.sign() * rng.logu(2e-5, 1.6e-4));
+        target = ref_forward(&rp, &layers, &q);
+        mon.count("poses_inside_the_wrist_band");
     }
     let (q, target) = (q, target);
     let pose = fr_to_iso(&target);
